@@ -158,6 +158,36 @@ def plincomb (lc : LC K) : List Nat → List Nat → List Nat → K → K → Me
   | [], [], [], _, _, m => some m
   | _, _, _, _, _, _ => none
 
+/-! ## Power-space broadcasting (`odl/space/pspace.py::_broadcast_arithmetic`), in-place forms -/
+
+/-- One step `xi op= other` of the loop over the parts: part buffer, operand buffer, memory. -/
+abbrev BStep (K : Type) := Nat → Nat → Mem K → Option (Mem K)
+
+/-- `for xi in self: xi op= other`, in order. -/
+def bcastLoop (step : BStep K) (o : Nat) : List Nat → Mem K → Option (Mem K)
+  | [], m => some m
+  | p :: ps, m =>
+      match step p o m with
+      | some m' => bcastLoop step o ps m'
+      | none => none
+
+/-- `x op= other` for an element `x` of a power space given by the buffer ids `ps` of its
+parts and an `other` of the base space (buffer `o`, possibly — by identity — one of the
+parts). `guard` is whether the code first replaces `other` by a copy (into the fresh buffer
+`t`) in that case; it is extracted from the source (`Gen/Broadcast.lean`). -/
+def bcastInPlace (lc : LC K) (step : BStep K) (guard : Bool) (ps : List Nat) (o t : Nat)
+    (m : Mem K) : Option (Mem K) :=
+  if guard && ps.contains o then
+    match lincomb1 lc 1 o t m with            -- other = other.copy()
+    | some m1 => bcastLoop step t ps m1
+    | none => none
+  else bcastLoop step o ps m
+
+/-- The step taken for the in-place element operators (`getattr(xi, '__imul__')(other)`, …);
+`t'` is the (unused) temporary slot of `Op.exec`. -/
+def opStep (lc : LC K) (op : Op) (t' : Nat) : BStep K :=
+  fun p o m => (op.exec lc p o t' 0 m).map (·.1)
+
 /-! ## `LinearSpace.lincomb` argument checks (front end), in source order -/
 
 inductive FrontOutcome
